@@ -603,6 +603,9 @@ def unsubscribe_inside_callback(ctx: Ctx) -> None:
 
 
 def shard(ctx: Ctx) -> None:
+    from vf.sim import device as _device
+
+    _device.AUTO_ROTATE = True   # chunking of the device's stream rotates: as written / replies coalesced / cut into 1..8-byte pieces
     unsubscribe_inside_callback(ctx)
     camera_across_subscriptions(ctx)
     state_streams(ctx)
